@@ -1030,6 +1030,40 @@ pub fn adversarial_packets(r: &mut Rng, scale: usize) -> Vec<Vec<u8>> {
             out.push(p);
         }
     }
+    // chains through *data* names: the data of record i (NS / CNAME / PTR) is a bare pointer to the data name of
+    // record i - 1, depth 15 .. 40, then records whose owner starts at the top of the chain
+    for ty in [2u16, 5, 12, 2 | 0x100, 5 | 0x100, 12 | 0x100] {
+        let data_readers_only = ty & 0x100 != 0;
+        let ty = ty & 0xff;
+        for depth in [15usize, 16, 17, 18, 20, 40] {
+            let nrec = (scale / 10 + 1).min(300);
+            let mut p = header(27, 0x8180, 1, 0, 0, 0);
+            question(&mut p, &[1, b'c', 0], ty);
+            let mut count = 0u16;
+            // record 0: literal data name
+            let mut top = p.len() + 2 + 10;
+            rr(&mut p, &ptr(12), ty, 1, &[1, b't', 0]);
+            count += 1;
+            for _ in 1..depth {
+                let here = p.len() + 2 + 10;
+                rr(&mut p, &ptr(12), ty, 1, &ptr(top));
+                top = here;
+                count += 1;
+            }
+            for k in 0..nrec {
+                // readers of the chain: by owner name, and by data name again
+                if data_readers_only || k % 2 == 0 {
+                    rr(&mut p, &ptr(12), ty, 1, &ptr(top));
+                } else {
+                    rr(&mut p, &ptr(top), 1, 1, &[1, 1, 1, 1]);
+                }
+                count += 1;
+            }
+            p[6] = (count >> 8) as u8;
+            p[7] = count as u8;
+            out.push(p);
+        }
+    }
     // uncapped ladder: record k follows k pointers
     for n in [20usize, scale.min(4000)] {
         let mut p = header(11, 0x8000, 1, n as u16, 0, 0);
